@@ -92,6 +92,16 @@ def run_e1(pid, modname, tier, seed, nproc=None):
     return cfg, tps, results, wall
 
 
+def _count_cross(results):
+    out = {}
+    for r in results:
+        for q in r.get("cross_solver", []):
+            for solver, verdict in q.items():
+                out.setdefault(solver, {}).setdefault(verdict, 0)
+                out[solver][verdict] += 1
+    return out
+
+
 def summarise_e1(pid, cfg, tps, results, wall, extra_assumptions=()):
     obls = [o for r in results for o in r["obligations"]]
     solver_kinds = [o for o in obls if "≡" in o["kind"]]
@@ -151,6 +161,8 @@ def summarise_e1(pid, cfg, tps, results, wall, extra_assumptions=()):
         "model_validation_samples": sum((o.get("detail") or {}).get("tried", 0) for o in obls if o["kind"].startswith("validate:")),
         "sql_refused_templates": refused,
         "solver_seconds": round(solver_s, 2),
+        "cross_solver_queries": sum(len(r.get("cross_solver", [])) for r in results),
+        "cross_solver_verdicts": _count_cross(results),
         "functions_encoded": functions,
         "artefact_constructs_interpreted": constructs,
         "bounds": {
@@ -225,7 +237,7 @@ E1_ASSUMPTIONS = [
     "engine models SEM_polars (Polars 1.44 logical-plan JSON) and SEM_sqlite (SQLite 3.40 SQL text) are hand-written; they are validated on every run against the real engines on random concrete tables (coverage.models_validated) and every counterexample is replayed on the real engines before it is reported",
     "REF (pv/ref.py) is the reference reading of the documentation (DESIGN.md Appendix A); DEF side conditions it emits are assumed in every query (coverage.samples[*].def)",
     "program quantifier: the template corpus (bounded enumeration); value quantifier: decided by z3 within coverage.bounds",
-    "z3 4.x/5.1 is trusted; unknown/timeouts are counted as inconclusive, never as discharged",
+    "z3 5.1 decides every obligation; for a seed-rotated tenth of the templates (a third in the thorough tier) every unsat verdict is re-decided by the cvc5 1.0.3 binary and z3 4.8.12 from an SMT-LIB2 dump (coverage.cross_solver_verdicts) - a 'sat' from either makes the obligation inconclusive; unknown/timeouts are inconclusive, never discharged",
     "integers are mathematical (overflow outside the claim); Float64 modelled as exact rationals on quarter-dyadic inputs (DESIGN.md 4.4)",
 ]
 
